@@ -20,9 +20,19 @@ Definition contrib_from (s : nat) (l2g F : list nat) (D : lmat) (f c : nat) : R 
 Definition contrib (p : part) : lmat :=
   contrib_from 0 (l2g_faces (fst p)) (faces_in_subgrid (fst p)) (snd p).
 
-(* the loop over the subproblems, including the shortcut that REPLACES the running sum *)
+(* the loop over the subproblems; in the shortcut branch (all faces in this subgrid) the
+   local result is added without the identity mappings, otherwise through face_map *)
 Definition step (nf : nat) (acc : lmat) (p : part) : lmat :=
+  if takes_shortcut nf (fst p) then fun f c => acc f c + contrib p f c
+  else fun f c => acc f c + contrib p f c.
+
+(* the loop before the repair: the shortcut REPLACED the running sum *)
+Definition step_unrepaired (nf : nat) (acc : lmat) (p : part) : lmat :=
   if takes_shortcut nf (fst p) then contrib p else fun f c => acc f c + contrib p f c.
+
+Definition assemble_unrepaired (nf : nat) (ps : list part) : lmat :=
+  fun f c => fold_left (step_unrepaired nf) ps (fun _ _ => 0) f c
+             / INR (nth f (num_face_repetitions (map fst ps)) 0%nat).
 
 Definition assemble (nf : nat) (ps : list part) : lmat :=
   fun f c => fold_left (step nf) ps (fun _ _ => 0) f c
@@ -149,35 +159,18 @@ Section Glue.
 
   Lemma fold_additive : forall ps acc f c,
     Forall part_ok ps -> Forall local_ok ps ->
-    Forall (fun p => takes_shortcut nf (fst p) = false) ps ->
     fold_left (step nf) ps acc f c = acc f c + INR (hits f ps) * G f c.
   Proof.
-    induction ps as [|p ps IH]; intros acc f c OK LO NS.
+    induction ps as [|p ps IH]; intros acc f c OK LO.
     - cbn. lra.
     - inversion OK as [|? ? OK1 OK2]; subst. inversion LO as [|? ? LO1 LO2]; subst.
-      inversion NS as [|? ? NS1 NS2]; subst.
-      cbn [fold_left]. rewrite IH by assumption. unfold step at 1. rewrite NS1.
-      rewrite contrib_spec by assumption. cbn [hits map fold_right].
+      cbn [fold_left]. rewrite IH by assumption.
+      assert (E : step nf acc p f c = acc f c + contrib p f c).
+      { unfold step. destruct (takes_shortcut nf (fst p)); reflexivity. }
+      rewrite E, contrib_spec by assumption. cbn [hits map fold_right].
       fold (hits f ps). destruct (memb f (faces_in_subgrid (fst p))).
       + rewrite plus_INR. cbn [INR]. lra.
       + cbn [plus]. lra.
-  Qed.
-
-  Lemma fold_first : forall ps f c,
-    Forall part_ok ps -> Forall local_ok ps ->
-    Forall (fun p => takes_shortcut nf (fst p) = false) (tl ps) ->
-    fold_left (step nf) ps (fun _ _ => 0) f c = INR (hits f ps) * G f c.
-  Proof.
-    intros [|p ps] f c OK LO NS; [cbn; lra|].
-    inversion OK as [|? ? OK1 OK2]; subst. inversion LO as [|? ? LO1 LO2]; subst.
-    cbn [tl] in NS. cbn [fold_left]. rewrite fold_additive by assumption.
-    cbn [hits map fold_right]. fold (hits f ps).
-    assert (E : step nf (fun _ _ => 0) p f c = contrib p f c).
-    { unfold step. destruct (takes_shortcut nf (fst p)); [reflexivity|lra]. }
-    rewrite E, contrib_spec by assumption.
-    destruct (memb f (faces_in_subgrid (fst p))).
-    - rewrite plus_INR. cbn [INR]. lra.
-    - cbn [plus]. lra.
   Qed.
 
   Lemma reps_hits : forall ps f, Forall part_ok ps ->
@@ -192,12 +185,11 @@ Section Glue.
      of subproblems and any overlap multiplicities *)
   Theorem split_sum : forall ps,
     Forall part_ok ps -> Forall local_ok ps ->
-    Forall (fun p => takes_shortcut nf (fst p) = false) (tl ps) ->
     (forall f, (f < nf)%nat -> exists p, In p ps /\ In f (faces_in_subgrid (fst p))) ->
     forall f c, (f < nf)%nat -> assemble nf ps f c = G f c.
   Proof.
-    intros ps OK LO NS COV f c Hf. unfold assemble.
-    rewrite fold_first by assumption. rewrite reps_hits by assumption.
+    intros ps OK LO COV f c Hf. unfold assemble.
+    rewrite fold_additive by assumption. rewrite reps_hits by assumption.
     assert (H : (0 < hits f ps)%nat).
     { destruct (COV f Hf) as [p [Hp Hin]]. clear - Hp Hin. induction ps as [|q ps IH]; [contradiction|].
       cbn [hits map fold_right]. destruct Hp as [Hp|Hp].
@@ -231,10 +223,11 @@ Proof.
     destruct (memb f active) eqn:M; [apply memb_In in M; contradiction|]. rewrite andb_false_r. reflexivity.
 Qed.
 
-(* the shortcut taken by a later subproblem discards what was accumulated before it *)
+(* before the repair: the shortcut taken by a later subproblem discarded what was
+   accumulated before it *)
 Lemma shortcut_overwrites : exists (nf : nat) (ps : list part) (f c : nat),
   Forall (part_ok) ps /\ (f < nf)%nat /\
-  assemble nf ps f c <> (fun _ _ => 1) f c /\
+  assemble_unrepaired nf ps f c <> (fun _ _ => 1) f c /\
   Forall (local_ok (fun _ _ => 1)) ps.
 Proof.
   exists 1%nat, [(mksub [0%nat] [] [] [0%nat], fun _ _ => 1); (mksub [0%nat] [] [] [0%nat], fun _ _ => 1)], 0%nat, 0%nat.
@@ -246,7 +239,7 @@ Proof.
   split; [|split; [|split]].
   - constructor; [exact OK|constructor; [exact OK|constructor]].
   - lia.
-  - unfold assemble. cbn. lra.
+  - unfold assemble_unrepaired. cbn. lra.
   - repeat constructor; intros k c _ _; reflexivity.
 Qed.
 
@@ -261,22 +254,16 @@ Qed.
 Lemma family_ok_sound : forall (nf : nat) (ps : list part),
   family_ok nf (map fst ps) = true ->
   Forall part_ok ps /\
-  Forall (fun p => takes_shortcut nf (fst p) = false) (tl ps) /\
   (forall f, (f < nf)%nat -> exists p, In p ps /\ In f (faces_in_subgrid (fst p))).
 Proof.
   intros nf ps H. unfold family_ok in H.
-  apply andb_true_iff in H. destruct H as [H H3].
   apply andb_true_iff in H. destruct H as [H1 H2].
-  rewrite forallb_forall in H1, H2, H3. repeat split.
+  rewrite forallb_forall in H1, H2. split.
   - apply Forall_forall. intros p Hp.
     specialize (H1 (fst p) (in_map fst ps p Hp)).
     apply andb_true_iff in H1. destruct H1 as [H1 S]. apply andb_true_iff in H1. destruct H1 as [N1 N2].
     unfold part_ok. repeat split; [apply nodupb_NoDup; exact N1|apply nodupb_NoDup; exact N2|].
     apply subset_In. exact S.
-  - apply Forall_forall. intros p Hp.
-    assert (Hin : In (fst p) (tl (map fst ps))).
-    { destruct ps as [|q ps]; [contradiction|]. cbn [tl map] in *. apply in_map. exact Hp. }
-    specialize (H3 (fst p) Hin). apply negb_true_iff in H3. exact H3.
   - intros f Hf. specialize (H2 f ltac:(apply in_seq; lia)).
     apply existsb_exists in H2. destruct H2 as [s [Hs M]].
     apply in_map_iff in Hs. destruct Hs as [p [E Hp]]. subst s.
